@@ -200,12 +200,28 @@ theorem nj_realises_additive_partial (D : Nat → Nat → Rat) (n : Nat) (sel : 
   ⟨finish_real D _ (nj_loop_ends_with_three n hn sel _) (njLoop_inv D sel n _ (star_inv D n hDs hDz) hch) htri,
    njLoop_labels n sel n _ (star_labels n _) hch⟩
 
+/-- quartet ((0:1,1:2):4,2:2,3:3): tips 0,1 form a cherry with pendant lengths 1 and 2 -/
+def exD : Mat := [[0, 3, 7, 8], [3, 0, 8, 9], [7, 8, 0, 5], [8, 9, 5, 0]]
+
+/-- Per-instance certificate: `njCertified n d` is a computable check (every pair selected by the model's
+`pickPair` is a cherry of the current matrix, the last three nodes satisfy the triangle inequality) that the
+driver evaluates on every test matrix; whenever it returns `true`, the tree returned by the model of `nj`
+realises `D` and carries exactly the labels.  (This replaces the unproved `nj_selects_cherry` instance by
+instance.) -/
+theorem nj_realises_additive_checked (D : Nat → Nat → Rat) (n : Nat) (hn : 3 ≤ n)
+    (hDs : ∀ a b, D a b = D b a) (hDz : ∀ a, D a a = 0) (hc : njCertified n (tab n D) = true) :
+    RootReal D (nj n (tab n D)) ∧ Labels n (njLoop pickPair n (star n (tab n D))) := by
+  unfold njCertified at hc
+  rw [Bool.and_eq_true] at hc
+  have hn2 : n ≠ 2 := by omega
+  unfold nj; rw [if_neg hn2]
+  exact nj_realises_additive_partial D n pickPair hDs hDz (njCheck_sound pickPair n _ hc.1) hn (tri3B_sound _ hc.2)
+
+example : njCertified 4 exD = true := by decide +kernel
+
 /-- and `nj` (n ≠ 2) is that loop with the model's selection rule followed by `finish` -/
 theorem nj_eq_loop (n : Nat) (hn : n ≠ 2) (d : Mat) : nj n d = finish (njLoop pickPair n (star n d)) := by
   unfold nj; rw [if_neg hn]
-
-/-- quartet ((0:1,1:2):4,2:2,3:3): tips 0,1 form a cherry with pendant lengths 1 and 2 -/
-def exD : Mat := [[0, 3, 7, 8], [3, 0, 8, 9], [7, 8, 0, 5], [8, 9, 5, 0]]
 
 example : Cherry exD 4 0 1 1 2 (fun k => if k = 2 then 6 else 7) := by
   refine ⟨by decide, by decide, by decide, by decide, by decide, by decide +kernel, ?_, ?_⟩ <;>
@@ -285,6 +301,20 @@ theorem upgma_realises_ultrametric_partial (D : Nat → Nat → Rat) (n : Nat) (
 
 /-- ultrametric ((0:1,1:1):2,2:3) -/
 def exU : Mat := [[0, 2, 6], [2, 0, 6], [6, 6, 0]]
+
+/-- Per-instance certificate: `upgmaCertified n d big` is a computable check (at each of the `n-1` passes the
+pair found by `find_smallest_index` is a pair of distinct live clusters at minimal live distance) evaluated by
+the driver on every test matrix; whenever it is `true` the model of `upgma` returns an equal-depth tree with
+non-negative branch lengths whose path distances are `D`. -/
+theorem upgma_realises_ultrametric_checked (D : Nat → Nat → Rat) (n : Nat) (hn : 2 ≤ n) (big : Rat)
+    (hDs : ∀ a b, D a b = D b a) (hDn : ∀ a b, 0 ≤ D a b)
+    (hDu : ∀ x y z, x < n → y < n → z < n → x ≠ y → y ≠ z → x ≠ z → D x z ≤ max (D x y) (D y z))
+    (hc : upgmaCertified n (tab n D) big = true) :
+    ∃ t h, upgma n (tab n D) big = some t ∧ UReal D t ∧ NonNeg t ∧ ∀ p ∈ t.depths, p.2 = h :=
+  upgma_realises_ultrametric_partial D n hn big hDs hDn hDu
+    (allGood_sound D n big (n - 1) _ (init_inv D n big hDs hDn hDu) hc)
+
+example : upgmaCertified 3 exU 1000000 = true := by decide +kernel
 
 example : upgma 3 exU 1000000 = some (.node (.node (.tip 0) 1 (.tip 1) 1) 2 (.tip 2) 3) := by decide +kernel
 example : select 3 1000000 (init 3 exU 1000000).m = ((init 3 exU 1000000).m, (0, 1)) := by decide +kernel
